@@ -72,12 +72,12 @@ def run(out, tier, seed):
     out.mc("MCAuditable", "MC_Auditable_aswritten.cfg", expect="Inv_LogDiscipline")
     out.mc("MCAuditable", "MC_Auditable_aswritten_rb.cfg", expect="Prop_RollbackRestores")
     jobs = []
-    d1 = 4 if quick else 6
+    d1 = 4 if quick else 5
     r, hs = gen("Own1s", ["w1"], d1, "InitAll")
     out.states += r.distinct; out.transitions += r.generated
-    r2, hs2 = gen("Own1", ["w1"], 3 if quick else 5, "InitSome")
+    r2, hs2 = gen("Own1", ["w1"], 3 if quick else 4, "InitSome")
     out.states += r2.distinct; out.transitions += r2.generated
-    r3, hs3 = gen("Own2s", ["w1", "w2"], 4 if quick else 5, "InitEmpty" if quick else "InitSome")
+    r3, hs3 = gen("Own2s", ["w1", "w2"], 4, "InitEmpty" if quick else "InitSome")
     out.states += r3.distinct; out.transitions += r3.generated
     out.extra["exhaustive_histories"] = {"one_wrapper_1triple": len(hs), "one_wrapper_2triples": len(hs2), "two_wrappers": len(hs3)}
     for i, h in enumerate(hs + hs2 + hs3):
